@@ -915,6 +915,7 @@ def schema_signature(msg):
     return 'C04:schema:%s%s:%s' % (el, '@' + at if at else '', kind), text[:200]
 
 
+VARIANT_BASES = ['corpus:rich_base.dae', 'corpus:sparse_base.dae']
 CORPUS_BASES = ['corpus:rich_base.dae', 'corpus:rich_base.dae+split', 'duck_triangles.dae+split', 'corpus:sparse_base.dae',
                 'corpus:sparse_base.dae']
 
@@ -944,7 +945,7 @@ class Harness:
         payload = []
         for r in recipes:
             r2 = dict(r)
-            if r['kind'] == 'edit':
+            if r['kind'] == 'edit' and 'base' not in r:
                 r2['base'] = base64.b64encode(self.base(r['base_name'])).decode()
             payload.append(r2)
         chunks = [payload[i:i + 40] for i in range(0, len(payload), 40)]
@@ -1013,16 +1014,42 @@ def run(ctx):
             if fn.endswith('.json'):
                 recipes.insert(0, json.load(open(os.path.join(cdir, fn)))['recipe'])
                 ncorpus += 1
+    # ---- every schema-valid, self-consistent single-step neighbour of the corpus bases is loaded and
+    # written (one element duplicated / removed / emptied, one attribute removed)
+    vdocs = []
+    for name in VARIANT_BASES:
+        try:
+            vdocs += [(name + ':' + lab, d) for lab, d in c04enc.variants(H.base(name))]
+        except Exception as e:  # noqa
+            ctx.log('variants of %s unusable: %r' % (name, e))
+    if have_xl:
+        vver = H.xl.validate_all([d for _, d in vdocs], jobs=min(8, core.NCPU))
+        vvalid = [(lab, d) for (lab, d), (ok, _) in zip(vdocs, vver) if ok and not c04enc.book_fails(d)]
+    else:
+        cand = [v for v in rng.sample(vdocs, min(60, len(vdocs))) if not c04enc.book_fails(v[1])]
+        vb, _ = core.coq_eval_cases(ctx, HEADER, 'C04.xcase', [c_xcase(d, True) for _, d in cand], 'C04.xmismatches', chunk=15, label='vfilter')
+        vvalid = [v for i, v in enumerate(cand) if i not in set(vb)]
+    nvariants = len(vvalid)
+    variant_first = len(recipes)
+    for lab, d in vvalid:
+        recipes.append({'kind': 'edit', 'base_name': lab, 'base': base64.b64encode(d).decode(), 'ops': [['write']], 'pure': False,
+                        'variant': True})
+    ctx.log('%d single-step variants of the corpus bases, %d schema-valid and self-consistent' % (len(vdocs), nvariants))
     ctx.log('running %d recipes on the implementation' % len(recipes))
     results = H.run_recipes(recipes)
     docs = []       # (recipe index, doc index, bytes, scratch-conformance wanted)
     raised = []
+    odocs = []      # variant outputs checked by the direct oracle only (xmllint + Python bookkeeping)
+    in_coq = set(rng.sample(range(variant_first, len(recipes)), min(40 if quick else 400, len(recipes) - variant_first)))
     for ri, (r, res) in enumerate(zip(recipes, results)):
         if not res['ok']:
             raised.append({'recipe_index': ri, 'error': res['error']})
         nd = len(res['docs'])
         for di, b in enumerate(res['docs']):
-            docs.append((ri, di, base64.b64decode(b), r['kind'] == 'scratch'))
+            if r.get('variant') and have_xl and ri not in in_coq:
+                odocs.append((ri, di, base64.b64decode(b)))
+            else:
+                docs.append((ri, di, base64.b64decode(b), r['kind'] == 'scratch'))
     ctx.log('%d documents written (%d recipes raised: %s)' % (len(docs), len(raised), [x['error'][:80] for x in raised[:3]]))
 
     xres = H.xl.validate_many([d for _, _, d, _ in docs]) if have_xl else [None] * len(docs)
@@ -1112,6 +1139,10 @@ def run(ctx):
                              'input': {'recipe': recipes[ri], 'doc_index': 0}, 'detail': res['error']})
     for (ri, di, d, _), xr, fl in zip(docs, xres, pyfails):
         failures += doc_failures(recipes[ri], di, d, xr, fl)
+    if odocs:
+        oxr = H.xl.validate_all([d for _, _, d in odocs], jobs=min(8, core.NCPU))
+        for (ri, di, d), xr in zip(odocs, oxr):
+            failures += doc_failures(recipes[ri], di, d, xr, c04enc.book_fails(d))
     mismatches = []
     known = {k['signature'] for k in core.load_known() if k.get('property') == 'C04'}
     for i in dbad[:20]:
@@ -1129,9 +1160,9 @@ def run(ctx):
         mismatches.append({'kind': 'emit-model-primitive', 'case_index': i, 'explained_by_known': False})
 
     seen = set()
-    dist = {'recipes': len(recipes), 'scratch': nscratch, 'edit_histories': len(recipes) - nscratch - ncorpus, 'corpus': ncorpus,
+    dist = {'recipes': len(recipes), 'scratch': nscratch, 'edit_histories': len(recipes) - nscratch - ncorpus - nvariants, 'corpus': ncorpus,
             'recipes_that_raised': len(raised), 'raised_examples': raised[:3],
-            'documents': len(docs), 'whole_writer_model_cases': len(mterms), 'source_model_cases': len(sterms), 'primitive_model_cases': len(pterms),
+            'documents': len(docs) + len(odocs), 'variant_bases': nvariants, 'variant_documents_oracle_only': len(odocs), 'whole_writer_model_cases': len(mterms), 'source_model_cases': len(sterms), 'primitive_model_cases': len(pterms),
             'xmllint': H.xl.exe if have_xl else 'absent', 'cross_validation': xstats, 'bases': valid_bases,
             'ops': {}, 'prim_kinds': {}, 'shaders': {}, 'lights': {}, 'cameras': {}}
     for r in recipes:
